@@ -10,7 +10,7 @@
    return (all tie-breaks).  That the code's graph holds every true dependence is NOT a theorem: it
    is validated on every run by tools/props/c10.py (C). *)
 From Coq Require Import String List Bool PArith Arith Permutation.
-Require Import TV.Model.FlowOrder TV.Proofs.FlowOrderProofs.
+Require Import TV.Model.FlowOrder TV.Proofs.FlowOrderProofs TV.Proofs.PruneProofs.
 Import ListNotations.
 Open Scope list_scope.
 
@@ -104,7 +104,6 @@ Theorem C10_hoist_meets_spec : forall g loops l, topo g l -> hoist_spec_okb g lo
 Proof. exact hoist_meets_spec. Qed.
 
 (* ---- mechanism 1: pruning of pass-through nodes ---- *)
-Require Import TV.Proofs.PruneProofs.
 
 (* removing any list of nodes from any acyclic graph, connecting every predecessor to every
    successor, leaves the transitive dependences among the nodes that stay exactly as they were *)
